@@ -11,7 +11,8 @@ from ..model import own_nodes, Cls
 EXPLANATION = (
     'Decided: the leaf sequence and leaf values are preserved by grouping (R3.1a = effect confinement over the call graph '
     'from grouping.group + slice balance of group_tokens); the only re-typing is a store of T.Operator in the post hook of '
-    'the operator pass (R3.1b); every placement of a token into a child list is paired with the parent store (R3.2); the '
+    'the operator pass (R3.1b); the token stream that is split and grouped is lexer.tokenize of the unmodified argument, with no '
+    'filter in between (R3.0); every placement of a token into a child list is paired with the parent store (R3.2); the '
     'cached value of an extended group is refreshed (R3.3); the two generic drivers correct their running index by exactly '
     'the number of children removed (R3.4) and the hand-written passes resume scanning at the group just built (R3.4b); the '
     'bounds handed to group_tokens come from ordered provenance idioms (R3.5); navigation helpers and read-only accessors '
@@ -32,6 +33,9 @@ def run(ctx):
     ctx.rule('R3.4b', 'hand-written while-token passes resume scanning at the start index of the group just built', floor=7)
     ctx.rule('R3.5', 'bounds handed to group_tokens are ordered by construction (provenance idioms)', floor=10)
     ctx.rule('R3.6', 'navigation helpers and read-only accessors of sql.py have no tree effect, transitively', floor=40)
+    ctx.rule('R3.0', 'the tree is built from the lexer output of the unmodified input: parse = tuple(parsestream) = bare FilterStack.run = tokenize(sql) -> split -> group', floor=6)
+    from .. import rules_stack as RK
+    RK.check_parse_pipeline(ctx, 'R3.0')
     ttype_stores, reach = RT.check_effect_confinement(ctx, 'R3.1a')
     RT.check_group_tokens(ctx, 'R3.1a-slice', 'R3.2', 'R3.3')
     check_retyping(ctx, ttype_stores)
